@@ -8,6 +8,7 @@ import (
 	"go/types"
 	"os"
 	"path/filepath"
+	"regexp"
 	"sort"
 	"strings"
 
@@ -92,6 +93,44 @@ type builderInfo struct {
 	Obj      *ssa.Alloc
 }
 
+var builderDepth = map[*ssa.Function]int{}
+
+func depthOf(fn *ssa.Function) int { return builderDepth[fn] }
+
+// builderDelegation: the one call in fn, executed on every path to a return, of another method on fn's own
+// receiver (the container) in the same package; nil when there is none or more than one.
+func (c *Ctx) builderDelegation(fn *ssa.Function) *ssa.Call {
+	var found *ssa.Call
+	for _, b := range fn.Blocks {
+		for _, ins := range b.Instrs {
+			call, ok := ins.(*ssa.Call)
+			if !ok {
+				continue
+			}
+			g := call.Call.StaticCallee()
+			if g == nil || g == fn || g.Pkg != fn.Pkg || g.Signature.Recv() == nil || len(call.Call.Args) == 0 || len(fn.Params) == 0 || call.Call.Args[0] != ssa.Value(fn.Params[0]) {
+				continue
+			}
+			if !strings.HasPrefix(strings.ToLower(g.Name()), "build") {
+				continue
+			}
+			if found != nil {
+				return nil
+			}
+			found = call
+		}
+	}
+	if found == nil {
+		return nil
+	}
+	for _, b := range fn.Blocks {
+		if _, ok := b.Instrs[len(b.Instrs)-1].(*ssa.Return); ok && !found.Block().Dominates(b) {
+			return nil
+		}
+	}
+	return found
+}
+
 func (c *Ctx) builderTable(fn *ssa.Function) *builderInfo {
 	bi := &builderInfo{Fields: map[string][]string{}}
 	f := c.NewFA(fn)
@@ -141,6 +180,12 @@ func (c *Ctx) builderTable(fn *ssa.Function) *builderInfo {
 			}
 		}
 	}
+	// a builder that hands its whole job to a sibling builder on the same container (BuildEAPSuccess calling
+	// BuildEAP with a constant code): the sibling's table with this builder's arguments substituted
+	var delegate *ssa.Call
+	if obj == nil && bi.Appends == 0 && depthOf(fn) < 2 {
+		delegate = c.builderDelegation(fn)
+	}
 	// calls that write memory the builder did not allocate (the container itself, an argument)
 	for _, b := range fn.Blocks {
 		for _, ins := range b.Instrs {
@@ -149,6 +194,9 @@ func (c *Ctx) builderTable(fn *ssa.Function) *builderInfo {
 				continue
 			}
 			if _, isBuiltin := ci.Common().Value.(*ssa.Builtin); isBuiltin {
+				continue
+			}
+			if delegate != nil && ins == ssa.Instruction(delegate) {
 				continue
 			}
 			for _, m := range c.CalleesAt(ci).Mod {
@@ -170,6 +218,50 @@ func (c *Ctx) builderTable(fn *ssa.Function) *builderInfo {
 		}
 	}
 	bi.Obj = obj
+	if obj == nil && delegate != nil {
+		g := delegate.Call.StaticCallee()
+		builderDepth[fn]++
+		sub := c.builderTable(g)
+		builderDepth[fn]--
+		if sub.Obj == nil {
+			return bi
+		}
+		subst := map[string]string{}
+		okSub := true
+		for i, a := range delegate.Call.Args {
+			o := c.originOf(fn, a, func(ssa.Value) bool { return false })
+			if i > 0 && !(strings.HasPrefix(o, "p") || strings.HasPrefix(o, "const:")) {
+				okSub = false
+			}
+			subst[fmt.Sprintf("p%d", i)] = o
+		}
+		if !okSub {
+			return bi
+		}
+		re := regexp.MustCompile(`\bp\d+\b`)
+		for fld, origins := range sub.Fields {
+			for _, o := range origins {
+				bi.Fields[fld] = append(bi.Fields[fld], re.ReplaceAllStringFunc(o, func(m string) string {
+					if r, ok := subst[m]; ok {
+						return r
+					}
+					return m
+				}))
+			}
+		}
+		bi.Obj, bi.Type, bi.Appends = sub.Obj, sub.Type, sub.Appends
+		bi.StoresEx = append(bi.StoresEx, sub.StoresEx...)
+		for _, b := range fn.Blocks {
+			if ret, ok := b.Instrs[len(b.Instrs)-1].(*ssa.Return); ok {
+				for _, rv := range ret.Results {
+					if rv == ssa.Value(delegate) && sub.Returns {
+						bi.Returns = true
+					}
+				}
+			}
+		}
+		return bi
+	}
 	if obj == nil {
 		return bi
 	}
@@ -360,9 +452,73 @@ func RunC19(c *Ctx, r *Report) {
 			r.bad(rule, n, "-", "the reference table lists this builder but it does not exist")
 		}
 	}
+	c.containerResetRule(r, prefix+"reset-drops-storage")
 	c.headerCtorRules(r, prefix, bf)
 	c.threeGPPRules(r, prefix, bf)
 	c.truncationRules(r, prefix)
+}
+
+// containerResetRule: "each builder ... leaves earlier payloads untouched, for all prior container contents"
+// includes the contents a container had before it was emptied: a list handed on (to NewMessage, to a proposal)
+// and then Reset must not be overwritten by the next Build* call. A method of a container type that shortens
+// the container keeps its backing array unless it stores nil (or a freshly made slice).
+func (c *Ctx) containerResetRule(r *Report, rule string) {
+	r.Rule(rule, "a method that empties or shortens a container stores nil or a fresh slice, never a re-slicing of the container itself (the next append would overwrite elements a previous holder of the list still sees)", 3)
+	pkg := c.Pkg("message")
+	for _, fn := range c.ModFuncs {
+		if fn.Pkg != pkg || fn.Parent() != nil || fn.Signature.Recv() == nil || len(fn.Params) == 0 {
+			continue
+		}
+		pt, ok := fn.Params[0].Type().(*types.Pointer)
+		if !ok {
+			continue
+		}
+		if _, isSlice := pt.Elem().Underlying().(*types.Slice); !isSlice {
+			continue
+		}
+		for _, b := range fn.Blocks {
+			for _, ins := range b.Instrs {
+				st, ok := ins.(*ssa.Store)
+				if !ok || st.Addr != ssa.Value(fn.Params[0]) {
+					continue
+				}
+				key := c.FuncName(fn) + ": " + c.SrcExpr(st)
+				v := st.Val
+				if ct, ok := v.(*ssa.ChangeType); ok {
+					v = ct.X
+				}
+				switch x := v.(type) {
+				case *ssa.Const:
+					r.Check(x.Value == nil, rule, key, c.InstrPos(st), "the container becomes nil", "the container is assigned a constant that is not nil")
+				case *ssa.Call:
+					if ap := isAppendCall(x); ap != nil {
+						base := ap.Call.Args[0]
+						if ct, ok := base.(*ssa.ChangeType); ok {
+							base = ct.X
+						}
+						u, isLoad := base.(*ssa.UnOp)
+						r.Check(isLoad && u.X == ssa.Value(fn.Params[0]) || isNilConst(base) || freshRoot(base), rule, key, c.InstrPos(st), "append onto the container's current content (a builder)", "the container is rebuilt by appending onto something that is neither its current content nor fresh")
+						continue
+					}
+					r.undecided(rule, key, c.InstrPos(st), "the container is assigned the result of a call")
+				case *ssa.Slice:
+					src := x.X
+					if ct, ok := src.(*ssa.ChangeType); ok {
+						src = ct.X
+					}
+					if u, ok := src.(*ssa.UnOp); ok && u.X == ssa.Value(fn.Params[0]) {
+						r.bad(rule, key, c.InstrPos(st), "the container is re-sliced in place ("+c.SrcExpr(x)+"): its length shrinks but the backing array stays, so the next Build* call overwrites elements that a message or proposal built from the previous contents still refers to")
+						continue
+					}
+					r.Check(freshRoot(src), rule, key, c.InstrPos(st), "a slice of freshly allocated storage", "the container is assigned a slice of existing storage")
+				case *ssa.MakeSlice:
+					r.ok(rule, key, c.InstrPos(st), "a freshly made slice", true)
+				default:
+					r.undecided(rule, key, c.InstrPos(st), "the value assigned to the container is not understood")
+				}
+			}
+		}
+	}
 }
 
 func describeFields(m map[string][]string) string {
@@ -724,14 +880,16 @@ func (c *Ctx) threeGPPRules(r *Report, prefix string, bf *buildersFile) {
 		var bad []string
 		hdrOK, lenOK, segOK := false, false, false
 		for _, fm := range e.order {
-			for _, row := range fm.Rows {
+			for _, row := range mergeByteRows(fm.Rows) {
 				if row.Off.isConst() && row.Off.C == 0 && row.Octets == 1 {
 					if v, ok := bvConst(row.Val); ok && v == bf.gppMapInt("eap5g_nas", "message_id") {
 						hdrOK = true
 					}
 				}
 				if row.Off.isConst() && row.Off.C == 1 {
-					bad = append(bad, "the spare octet is written")
+					if v, ok := bvConst(row.Val); !ok || row.Octets != 1 || v != bf.gppMapInt("eap5g_nas", "spare") {
+						bad = append(bad, "the spare octet is written with something other than the spare value")
+					}
 				}
 				if row.Off.isConst() && row.Off.C == bf.gppMapInt("eap5g_nas", "length_at") && int64(row.Octets) == bf.gppMapInt("eap5g_nas", "length_octets") {
 					runs, _, _ := runsOf(row.Val)
@@ -797,8 +955,17 @@ func (c *Ctx) threeGPPRules(r *Report, prefix string, bf *buildersFile) {
 				if len(runs) == 1 {
 					desc = e.x.leaves[runs[0].Leaf].Key
 				}
+				// octet 0 of a buffer made at its final size: the size it was made with
+				sized := false
+				if st, ok := row.Ins.(*ssa.Store); ok && off == "0" && !fm.hasAppend() {
+					v := st.Val
+					if cv, ok := v.(*ssa.Convert); ok {
+						v = cv.X
+					}
+					sized = f.LFOf(v).key() == fm.InitLen.key() && !fm.InitLen.isConst()
+				}
 				switch {
-				case off == "0" && strings.HasPrefix(desc, "len:"):
+				case off == "0" && (strings.HasPrefix(desc, "len:") || sized):
 					want["len"] = true
 				case off == "1" && desc == "param:pduSessionID":
 					want["pdu"] = true
